@@ -267,6 +267,72 @@ def transport_big(k: int, delta: int, t: int) -> bool:
     return ok
 
 
+class _Chunky(io.RawIOBase):
+    """a raw stream that delivers at most `k` bytes per read call (what a pipe does)"""
+
+    def __init__(self, data: bytes, k: int):
+        self.data, self.k, self.pos = data, k, 0
+
+    def readable(self):
+        return True
+
+    def readinto(self, b):
+        n = min(len(b), self.k, len(self.data) - self.pos)
+        b[:n] = self.data[self.pos:self.pos + n]
+        self.pos += n
+        return n
+
+
+def main_wiring(k: int, t: int, n: int) -> bool:
+    """fortls.main() wires the connection to a stream on which read(n) delivers n bytes however the bytes arrive:
+    stdin is replaced by a buffered reader over a raw stream that yields at most k bytes per call; the connection
+    built by the real main() must decode two frames (multi-byte body) exactly
+    pre: 1 <= k <= 7 and 1 <= t <= 3 and 0 <= n <= 3
+    post: _
+    """
+    tick("main_wiring")
+    k, t, n = conc(k, 1, 7), conc(t, 1, 3), conc(n, 0, 3)
+    from crosshair.tracers import NoTracing
+
+    with NoTracing():  # main() builds a full LangServer (loads the intrinsic tables): run it at native speed
+        ok = _main_wiring(k, t, n)
+    tock("main_wiring")
+    return ok
+
+
+def _main_wiring(k, t, n):
+    import sys
+
+    import fortls
+
+    body = ("x" * n + TOKS[t] + "yz")
+    raw = body.encode("utf-8")
+    frame = ("Content-Length: %d\r\n\r\n" % len(raw)).encode() + raw
+    chunky = _Chunky(frame + frame, k)
+
+    class _Stdin:
+        buffer = io.BufferedReader(chunky, buffer_size=16)
+
+    class _Stdout:
+        buffer = io.BytesIO()
+
+    got = []
+
+    def fake_run(self):
+        got.append(self.conn.read_message())
+        got.append(self.conn.read_message())
+
+    real_run, real_in, real_out, real_argv = fortls.LangServer.run, sys.stdin, sys.stdout, sys.argv
+    fortls.LangServer.run = fake_run
+    sys.stdin, sys.stdout, sys.argv = _Stdin(), _Stdout(), ["fortls", "--disable_autoupdate"]
+    try:
+        fortls.main()
+    finally:
+        fortls.LangServer.run = real_run
+        sys.stdin, sys.stdout, sys.argv = real_in, real_out, real_argv
+    return got == [body, body]
+
+
 PTOK = ["a", " ", "%", "#", "é", "?", "%41", "+", "€", "&", "=", "~", "(", "'", "b.f90"]
 
 
